@@ -100,6 +100,18 @@ Proof.
   by injection Hst as <- <-.
 Qed.
 
+(* NOFID cannot be bound: attach onto it and walk onto it fail *)
+Lemma sp_nofid_target t o ts t' r :
+  ((∃ a, o = OAttach NOFID a) ∨ (∃ f names, o = OWalk f NOFID names ∧ f ≠ NOFID)) →
+  sp_step t o ts = (t', r) → (∃ e, r = RErr e) ∧ t' = t.
+Proof.
+  intros [[a ->]|(f & names & -> & Hf)] Hst; cbn [sp_step] in Hst.
+  - unfold sp_attach in Hst. spec_cases; simplify_eq; eauto.
+  - unfold sp_walk in Hst. destruct (valid_path names <? 0)%Z; [simplify_eq; eauto|].
+    destruct (sp_lookup t f); [|simplify_eq; eauto].
+    rewrite decide_True in Hst by done. simplify_eq; eauto.
+Qed.
+
 (* a complete walk binds newfid to the new entry, not open, and changes nothing else;
    with newfid = fid this moves fid *)
 Lemma sp_walk_complete t f nf names ts t' :
@@ -200,6 +212,15 @@ Section clauses.
     intros Hf Hl. assert (Ho : is_stop o = false) by (by destruct o).
     destruct (step_spec _ _ _ _ _ _ Hreach Ho Hstep) as [Hsp _].
     by eapply sp_unbound_fails.
+  Qed.
+
+  Lemma cl_nofid_target :
+    ((∃ a, o = OAttach NOFID a) ∨ (∃ f names, o = OWalk f NOFID names ∧ f ≠ NOFID)) →
+    (∃ e, r = RErr e) ∧ abs s' = abs s.
+  Proof.
+    intros Ho. assert (Ho' : is_stop o = false) by (by destruct Ho as [[? ->]|(? & ? & -> & _)]).
+    destruct (step_spec _ _ _ _ _ _ Hreach Ho' Hstep) as [Hsp _].
+    by eapply sp_nofid_target.
   Qed.
 
   Lemma cl_attach_dup f :
